@@ -136,7 +136,9 @@ CHECKS = {
         text="C17_setpoll, C17_inputmode_of, C17_long (constants lifted from getinputmode's AST each run); C17_set_partial / "
              "C17_poll_partial: for every SET/POLL definition and every frame length its payloads can have, getinputmode "
              "returns the definition's mode, except the recorded ambiguities (empty-payload SET; AID-ALM/AOP/EPH polls "
-             "with svid); C17_full_refuted gives the witnesses.",
+             "with svid); C17_set_resolves / C17_poll_resolves: what those obligations mean - every frame of such a definition's "
+             "class/id with a length its payload can have is parsed under SETPOLL exactly as under its own mode; "
+             "C17_full_refuted gives the witnesses of the recorded ambiguities.",
         note=MSG_NOTE, ref="DESIGN.md §6 C17"),
     "C18": dict(
         technique="Coq proof (integer codec round trip for every width; X/C/nomval; R8 bit round trip; Fletcher closed form; get_bits; att2idx/att2name invert the walk's suffixing by induction over decimal printing) + exhaustive/boundary correspondence incl. the float engine and long inputs",
